@@ -279,8 +279,10 @@ def parse_youtube_url(url, fix_common_mistakes=True):
     # youtu.be
     if parsed.hostname and parsed.hostname.endswith("youtu.be"):
 
-        if path.count("/") > 0:
-            v = pathsplit(path)[0]
+        splitted_path = pathsplit(path)
+
+        if splitted_path:
+            v = splitted_path[0]
 
             if fix_common_mistakes:
                 v = v[:11]
